@@ -4,8 +4,9 @@ Genes are generated as exon structures on small records (one to three exons of 1
 either strand, a codon_start qualifier, and every way of letting the gene run over the origin of a
 circular record). For every gene and every protein range [s,e) the REAL antismash code is asked for
 the nucleotide location of that range (Feature.get_sub_location_from_protein_coordinates and its
-callers: Prepeptide.to_biopython, hmmer.build_hits, generate_domain_features / generate_motif_features,
-TTAResults.new_feature_from_other / tta.detect) and the answer is compared with an independent model:
+callers: Prepeptide.to_biopython and its to_biopython -> from_biopython -> to_biopython read-back,
+hmmer.build_hits, generate_domain_features / generate_motif_features, TTAResults.new_feature_from_other /
+tta.detect) and the answer is compared with an independent model:
 transcript base t of a location with parts p0..pn (Biopython order) is the t-th base met when walking
 the parts in order, ascending on the forward strand and descending on the reverse strand.
 
@@ -30,7 +31,8 @@ RULE = (
     "through CDSFeature.from_biopython on a real Record, every protein range 0 <= s < e <= len//3 "
     "(get_sub_location_from_protein_coordinates, convert_protein_position_to_dna), every codon as TTA marker, "
     "tta.detect on a sequence with TTA planted at every 2nd/3rd codon; on every third gene every "
-    "leader|core|tail split (Prepeptide.to_biopython), on another third every range through hmmer.build_hits, "
+    "leader|core|tail split (Prepeptide.to_biopython; then the read-back history: Prepeptide.from_biopython of "
+    "the core feature and to_biopython again, judged against the original gene), on another third every range through hmmer.build_hits, "
     "generate_domain_features and generate_motif_features. Sequence = ATG + pseudo-random sense codons "
     "(neighbouring codons differ in amino acid) laid along the gene, random filler elsewhere. Thorough adds "
     "run.rng-seeded genes with 1..5 exons of 1..40 bases on records up to ~400 bases. Trivial = single forward "
@@ -81,7 +83,14 @@ def _spans_origin(gene: Spec) -> bool:
 
 
 def _inside(parts: Spec, gene: Spec) -> bool:
-    return all(any(g[0] <= p[0] and p[1] <= g[1] for g in gene) for p in parts)
+    """Every base of `parts` is a base of the gene (touching exons of the gene count as one stretch)."""
+    stretches: list[list[int]] = []
+    for start, end in sorted((g[0], g[1]) for g in gene):
+        if stretches and start <= stretches[-1][1]:
+            stretches[-1][1] = max(stretches[-1][1], end)
+        else:
+            stretches.append([start, end])
+    return all(any(low <= p[0] and p[1] <= high for low, high in stretches) for p in parts)
 
 
 class _Lcg:
@@ -352,6 +361,47 @@ def _eval_prepeptide(case: dict) -> Outcome:
         if not okc or _walk(_loc_parts(parsed)) != ctx.walk[3 * low:3 * high]:
             texts_ok, detail = False, f"{name}_location qualifier {raw!r} does not give bases {ctx.walk[3 * low:3 * high]}"
     out.append(("prepeptide-location-qualifiers-are-the-encoding-bases", texts_ok, nontrivial, detail))
+    out.extend(_read_back(core, expected, ctx, protein, nontrivial))
+    return out
+
+
+def _read_back(core: Any, expected: list, ctx: _Context, protein: str, nontrivial: bool) -> Outcome:
+    """The history of a precursor peptide in a saved antiSMASH result: only the core feature (with the leader
+    and tail locations as qualifiers) is read back by Prepeptide.from_biopython, which rebuilds the gene
+    location from the pieces; the rebuilt annotation and the leader/core/tail it writes out next must still
+    cover the nucleotides that encode them in the ORIGINAL gene."""
+    from antismash.common.secmet.features import Prepeptide
+    total = expected[-1][2]
+    pieces = f"leader/core/tail {[(n, lo, hi) for n, lo, hi in expected]} of {ctx.cds.location}"
+    okc, rebuilt = _guard(lambda: Prepeptide.from_biopython(core))
+    if not okc:
+        return [("prepeptide-read-back-no-unexpected-exception", False, nontrivial,
+                 f"from_biopython(core) for {pieces}: {rebuilt}")]
+    out: Outcome = []
+    kept = (rebuilt.leader, rebuilt.core, rebuilt.tail) == tuple(
+        "".join(protein[lo:hi] for n, lo, hi in expected if n == name) for name in ("leader", "core", "tail"))
+    out.append(("prepeptide-read-back-keeps-leader-core-tail", kept, nontrivial,
+                f"read back {rebuilt.leader!r}/{rebuilt.core!r}/{rebuilt.tail!r} for {pieces}"))
+    out.extend(_judge("prepeptide-read-back-location", rebuilt.location, ctx, 0, total, protein[:total], nontrivial))
+    okc, features = _guard(rebuilt.to_biopython)
+    if not okc:
+        out.append(("prepeptide-read-back-no-unexpected-exception", False, nontrivial,
+                    f"to_biopython of the prepeptide read back at {rebuilt.location} for {pieces}: {features}"))
+        return out
+    out.append(("prepeptide-read-back-no-unexpected-exception", True, nontrivial, ""))
+    kinds = [f.qualifiers.get("prepeptide", ["?"])[0] for f in features]
+    if kinds != [name for name, _, _ in expected]:
+        out.append(("prepeptide-read-back-emits-leader-core-tail", False, nontrivial,
+                    f"features {kinds}, expected {expected}"))
+        return out
+    merged: dict[str, list] = {}
+    for feature, (name, low, high) in zip(features, expected):
+        for clause, ok, _, detail in _judge("prepeptide-read-back-part", feature.location, ctx, low, high,
+                                            protein[low:high], nontrivial):
+            slot = merged.setdefault(clause, [True, ""])
+            if not ok and slot[0]:
+                slot[0], slot[1] = False, f"{name}: {detail}"
+    out.extend((clause, ok, nontrivial, detail) for clause, (ok, detail) in merged.items())
     return out
 
 
@@ -484,7 +534,8 @@ def replay(case: dict) -> list[str]:
 # known findings on the pinned tree
 # ------------------------------------------------------------------------------------------------
 
-_LOCATED = ("sub-location", "prepeptide-part", "hmmer-hit", "nrps-pks-domain", "nrps-pks-motif")
+_LOCATED = ("sub-location", "prepeptide-part", "prepeptide-read-back-part", "prepeptide-read-back-location",
+            "hmmer-hit", "nrps-pks-domain", "nrps-pks-motif")
 
 
 def _effective_of(case: dict) -> Spec:
